@@ -107,6 +107,25 @@ pub open spec fn event_is_default(e: FinalizationEvent) -> bool {
     e.finalized is None && e.implicitly_finalized@.len() == 0 && e.implicitly_skipped@.len() == 0
 }
 
+// a slot decided implicitly is listed in the finalization event (what the parent-ready tracker acts upon)
+pub open spec fn reported_in(ev: FinalizationEvent, s: Slot, st: Option<FinalizationStatus>) -> bool {
+    match st {
+        Some(FinalizationStatus::ImplicitlySkipped) => ev.implicitly_skipped@.contains(s),
+        Some(FinalizationStatus::ImplicitlyFinalized(h)) => ev.implicitly_finalized@.contains((s, h)),
+        _ => false,
+    }
+}
+pub open spec fn reported_any(ev: FinalizationEvent, s: Slot) -> bool {
+    ev.implicitly_skipped@.contains(s) || exists|h: BlockHash| #[trigger] ev.implicitly_finalized@.contains((s, h))
+}
+pub proof fn lemma_prefix_contains<T>(a: Seq<T>, b: Seq<T>, x: T)
+    requires a.is_prefix_of(b), a.contains(x),
+    ensures b.contains(x),
+{
+    let i = choose|i: int| 0 <= i < a.len() && a[i] == x;
+    assert(b[i] == x);
+}
+
 pub mod code {
 use super::*;
 broadcast use super::axiom_Slot_obeys_cmp_laws, super::axiom_block_id_obeys_cmp_laws;
@@ -230,6 +249,10 @@ ensures
             ((exists|t: Slot| implicitly_finalized.0.0 < t.0 < source_slot.0 && #[trigger] old(self).st(t) == Some(FinalizationStatus::ImplicitlySkipped))
              || (fin_hash(final(self).st(implicitly_finalized.0)) == Some(implicitly_finalized.1)
                  && forall|t: Slot| implicitly_finalized.0.0 < t.0 < source_slot.0 ==> decided(#[trigger] final(self).st(t)))),
+        // a decided slot is not touched at all by the ancestor walk
+        forall|s: Slot| decided(#[trigger] old(self).st(s)) ==> final(self).st(s) == old(self).st(s),
+        // [C07.finalization_consequences_are_reported C08.newly_decided_slots_are_reported]
+        forall|s: Slot| decided(final(self).st(s)) && !decided(#[trigger] old(self).st(s)) ==> reported_in(*final(event), s, final(self).st(s)),
         // [C08.implicit_events_reported_once]
         final(event).finalized == old(event).finalized,
         old(event).implicitly_skipped@.is_prefix_of(final(event).implicitly_skipped@),
@@ -253,6 +276,8 @@ loop 0
             implicitly_finalized.0.0 <= verif_slot_it.0 <= source_slot.0,
             source_slot.0 <= self.highest_finalized_slot.0,
             forall|s: Slot| keeps_decision(#[trigger] old(self).st(s), self.st(s)),
+            forall|s: Slot| decided(#[trigger] old(self).st(s)) ==> self.st(s) == old(self).st(s),
+            forall|s: Slot| decided(self.st(s)) && !decided(#[trigger] old(self).st(s)) ==> reported_in(*event, s, self.st(s)),
             forall|s: Slot| !decided(self.st(s)) ==> self.st(s) == #[trigger] old(self).st(s),
             forall|s: Slot| decided(self.st(s)) && !decided(#[trigger] old(self).st(s)) ==> implicitly_finalized.0.0 < s.0 <= verif_slot_it.0 && s.0 < source_slot.0,
             forall|t: Slot| implicitly_finalized.0.0 < t.0 <= verif_slot_it.0 && t.0 < source_slot.0 ==> decided(#[trigger] self.st(t)),
@@ -271,6 +296,7 @@ before `vassert(source_slot > implicitly_finalized.0);`
         let ghost pre_ev = *event;
 before `let old = self .status .insert(slot, FinalizationStatus::ImplicitlySkipped);`
         let ghost g1 = *self;
+        let ghost evp = *event;
 
 after `let old = self .status .insert(slot, FinalizationStatus::ImplicitlySkipped);`
         proof {
@@ -305,9 +331,35 @@ before `if let Some(parent) = verif_cloned_block_id(self.parents.get(&implicitly
             assert(fin_hash(pre.st(implicitly_finalized.0)) is None);
             assert(g3.st(implicitly_finalized.0) == Some(FinalizationStatus::ImplicitlyFinalized(implicitly_finalized.1)));
             assert forall|t: Slot| implicitly_finalized.0.0 < t.0 < source_slot.0 implies decided(#[trigger] g3.st(t)) by { let _ = g2.st(t); }
+            assert(ev3.implicitly_finalized@[pre_ev.implicitly_finalized@.len() as int] == implicitly_finalized);
+            assert(ev3.implicitly_skipped@ == ev2.implicitly_skipped@);
+            assert forall|s: Slot| decided(g3.st(s)) && !decided(#[trigger] pre.st(s)) implies reported_in(ev3, s, g3.st(s)) by {
+                if s != implicitly_finalized.0 {
+                    let _ = g2.st(s);
+                    assert(reported_in(ev2, s, g2.st(s)));
+                    assert(g3.st(s) == g2.st(s));
+                    match g2.st(s) {
+                        Some(FinalizationStatus::ImplicitlyFinalized(h)) => { lemma_prefix_contains(ev2.implicitly_finalized@, ev3.implicitly_finalized@, (s, h)); }
+                        _ => {}
+                    }
+                }
+            }
+            assert forall|s: Slot| decided(#[trigger] pre.st(s)) implies g3.st(s) == pre.st(s) by { let _ = g2.st(s); }
         }
 after `self.handle_implicitly_finalized(implicitly_finalized.0, parent, event);`
         proof {
+            assert forall|s: Slot| decided(#[trigger] pre.st(s)) implies self.st(s) == pre.st(s) by { let _ = g3.st(s); }
+            assert forall|s: Slot| decided(self.st(s)) && !decided(#[trigger] pre.st(s)) implies reported_in(*event, s, self.st(s)) by {
+                if decided(g3.st(s)) {
+                    assert(self.st(s) == g3.st(s));
+                    assert(reported_in(ev3, s, g3.st(s)));
+                    match g3.st(s) {
+                        Some(FinalizationStatus::ImplicitlySkipped) => { lemma_prefix_contains(ev3.implicitly_skipped@, event.implicitly_skipped@, s); }
+                        Some(FinalizationStatus::ImplicitlyFinalized(h)) => { lemma_prefix_contains(ev3.implicitly_finalized@, event.implicitly_finalized@, (s, h)); }
+                        _ => {}
+                    }
+                }
+            }
             assert forall|s: Slot| keeps_decision(#[trigger] pre.st(s), self.st(s)) by { let _ = g3.st(s); }
             assert forall|t: Slot| implicitly_finalized.0.0 < t.0 < source_slot.0 implies decided(#[trigger] self.st(t)) by { let _ = g3.st(t); }
             assert(fin_hash(self.st(implicitly_finalized.0)) == Some(implicitly_finalized.1)) by { let _ = g3.st(implicitly_finalized.0); }
@@ -329,6 +381,18 @@ after `self.handle_implicitly_finalized(implicitly_finalized.0, parent, event);`
                 if i < ev3.implicitly_skipped@.len() {
                     assert(event.implicitly_skipped@[i] == ev3.implicitly_skipped@[i]);
                 }
+            }
+        }
+blockend `let old = self .status .insert(slot, FinalizationStatus::ImplicitlySkipped);`
+        proof {
+            // [C07.implicitly_skipped_slot_is_listed C08.implicitly_skipped_slot_is_listed]
+            assert(event.implicitly_skipped@ == evp.implicitly_skipped@.push(slot));
+            assert(event.implicitly_skipped@[evp.implicitly_skipped@.len() as int] == slot);
+            assert forall|x: Slot| evp.implicitly_skipped@.contains(x) implies event.implicitly_skipped@.contains(x) by {
+                lemma_prefix_contains(evp.implicitly_skipped@, event.implicitly_skipped@, x);
+            }
+            assert forall|s: Slot| decided(self.st(s)) && !decided(#[trigger] pre.st(s)) implies reported_in(*event, s, self.st(s)) by {
+                if s != slot { let _ = g1.st(s); assert(reported_in(evp, s, g1.st(s))); }
             }
         }
 @*/
@@ -354,6 +418,10 @@ ensures
         forall|s: Slot| s.0 >= final(self).first_unpruned_slot.0 && !decided(final(self).st(s)) ==> final(self).st(s) == #[trigger] old(self).st(s),
         // [C08.nothing_undecided_is_dropped]
         forall|b: BlockId| b.0.0 >= final(self).first_unpruned_slot.0 ==> (#[trigger] final(self).parents@.contains_key(b) <==> old(self).parents@.contains_key(b)),
+        // [C07.finalization_consequences_are_reported C08.newly_decided_slots_are_reported] every slot above the old watermark that
+        // this finalization decides (whether it is then pruned or kept) is listed in the event
+        forall|s: Slot| s.0 > old(self).first_unpruned_slot.0 && !decided(#[trigger] old(self).st(s))
+            && (s.0 < final(self).first_unpruned_slot.0 || decided(final(self).st(s))) ==> reported_any(*final(event), s),
         // [C08.implicit_events_reported_once]
         forall|i: int| 0 <= i < final(event).implicitly_skipped@.len() ==> !decided(old(self).st(#[trigger] final(event).implicitly_skipped@[i])),
         forall|i: int| 0 <= i < final(event).implicitly_finalized@.len() ==> fin_hash(old(self).st((#[trigger] final(event).implicitly_finalized@[i]).0)) is None,
@@ -365,9 +433,21 @@ after `self.highest_finalized_slot = slot.max(self.highest_finalized_slot);`
         }
 before `self.prune();`
         let ghost g2 = *self;
+        let ghost ev2 = *event;
         proof {
+            assert forall|s: Slot| decided(g2.st(s)) && !decided(#[trigger] old(self).st(s)) implies reported_any(ev2, s) by {
+                let _ = g1.st(s);
+                assert(reported_in(ev2, s, g2.st(s)));
+            }
             assert forall|s: Slot| keeps_decision(#[trigger] old(self).st(s), g2.st(s)) by { let _ = g1.st(s); }
             assert forall|s: Slot| !decided(g2.st(s)) implies g2.st(s) == #[trigger] old(self).st(s) by { let _ = g1.st(s); }
+        }
+after `self.prune();`
+        proof {
+            assert forall|s: Slot| s.0 > old(self).first_unpruned_slot.0 && !decided(#[trigger] old(self).st(s))
+                && (s.0 < self.first_unpruned_slot.0 || decided(self.st(s))) implies reported_any(*event, s) by {
+                if s.0 < self.first_unpruned_slot.0 { assert(decided(g2.st(s))); } else { assert(self.st(s) == g2.st(s)); }
+            }
         }
 @*/
 
@@ -378,6 +458,10 @@ requires
         old(self).wf(),
         block.0.0 < u64::MAX,
 ensures
+        // [C07.finalization_consequences_are_reported C08.newly_decided_slots_are_reported]
+        forall|s: Slot| s.0 > old(self).first_unpruned_slot.0 && !decided(#[trigger] old(self).st(s))
+            && (s.0 < final(self).first_unpruned_slot.0 || decided(final(self).st(s)))
+            ==> (r.finalized matches Some(f) && f.0 == s) || reported_any(r, s),
         final(self).wf(),
         // [C08.below_watermark_is_a_noop]
         block.0.0 < old(self).first_unpruned_slot.0 ==> final(self).same_as(old(self)) && event_is_default(r),
@@ -407,6 +491,8 @@ before `self.handle_finalized_block(block, &mut event);`
 after `self.handle_finalized_block(block, &mut event);`
         proof {
             assert forall|s: Slot| s.0 >= self.first_unpruned_slot.0 implies keeps_decision(#[trigger] pre.st(s), self.st(s)) by { let _ = g.st(s); }
+            assert forall|s: Slot| s.0 > pre.first_unpruned_slot.0 && !decided(#[trigger] pre.st(s))
+                && (s.0 < self.first_unpruned_slot.0 || decided(self.st(s))) implies (event.finalized matches Some(f) && f.0 == s) || reported_any(event, s) by { let _ = g.st(s); }
         }
 @*/
 
@@ -417,6 +503,10 @@ requires
         old(self).wf(),
         block.0.0 < u64::MAX,
 ensures
+        // [C07.finalization_consequences_are_reported C08.newly_decided_slots_are_reported]
+        forall|s: Slot| s.0 > old(self).first_unpruned_slot.0 && !decided(#[trigger] old(self).st(s))
+            && (s.0 < final(self).first_unpruned_slot.0 || decided(final(self).st(s)))
+            ==> (r.finalized matches Some(f) && f.0 == s) || reported_any(r, s),
         final(self).wf(),
         // [C08.below_watermark_is_a_noop]
         block.0.0 < old(self).first_unpruned_slot.0 ==> final(self).same_as(old(self)) && event_is_default(r),
@@ -454,6 +544,8 @@ before `self.handle_finalized_block(block, &mut event);`
 after `self.handle_finalized_block(block, &mut event);`
         proof {
             assert forall|s: Slot| s.0 >= self.first_unpruned_slot.0 implies keeps_decision(#[trigger] pre.st(s), self.st(s)) by { let _ = g.st(s); }
+            assert forall|s: Slot| s.0 > pre.first_unpruned_slot.0 && !decided(#[trigger] pre.st(s))
+                && (s.0 < self.first_unpruned_slot.0 || decided(self.st(s))) implies (event.finalized matches Some(f) && f.0 == s) || reported_any(event, s) by { let _ = g.st(s); }
         }
 @*/
 
@@ -464,6 +556,10 @@ requires
         old(self).wf(),
         slot.0 < u64::MAX,
 ensures
+        // [C07.finalization_consequences_are_reported C08.newly_decided_slots_are_reported]
+        forall|s: Slot| s.0 > old(self).first_unpruned_slot.0 && !decided(#[trigger] old(self).st(s))
+            && (s.0 < final(self).first_unpruned_slot.0 || decided(final(self).st(s)))
+            ==> (r.finalized matches Some(f) && f.0 == s) || reported_any(r, s),
         final(self).wf(),
         // [C08.below_watermark_is_a_noop]
         slot.0 < old(self).first_unpruned_slot.0 ==> final(self).same_as(old(self)) && event_is_default(r),
@@ -499,6 +595,8 @@ before `self.handle_finalized_block((slot, block_hash), &mut event);`
 after `self.handle_finalized_block((slot, block_hash), &mut event);`
         proof {
             assert forall|s: Slot| s.0 >= self.first_unpruned_slot.0 implies keeps_decision(#[trigger] pre.st(s), self.st(s)) by { let _ = g.st(s); }
+            assert forall|s: Slot| s.0 > pre.first_unpruned_slot.0 && !decided(#[trigger] pre.st(s))
+                && (s.0 < self.first_unpruned_slot.0 || decided(self.st(s))) implies (event.finalized matches Some(f) && f.0 == s) || reported_any(event, s) by { let _ = g.st(s); }
         }
 @*/
 
@@ -516,6 +614,10 @@ requires
         old(self).parents@.contains_key(block) ==> old(self).parents@[block] == parent,
         block.0.0 < u64::MAX,
 ensures
+        // [C07.finalization_consequences_are_reported C08.newly_decided_slots_are_reported]
+        forall|s: Slot| s.0 > old(self).first_unpruned_slot.0 && !decided(#[trigger] old(self).st(s))
+            && (s.0 < final(self).first_unpruned_slot.0 || decided(final(self).st(s)))
+            ==> (r.finalized matches Some(f) && f.0 == s) || reported_any(r, s),
         final(self).wf(),
         // [C08.below_watermark_is_a_noop]
         block.0.0 < old(self).first_unpruned_slot.0 ==> final(self).same_as(old(self)) && event_is_default(r),
@@ -540,8 +642,20 @@ before `self.handle_implicitly_finalized(slot, parent, &mut event);`
         proof { assert(decided(self.st(slot))); }
 before `self.prune();`
         let ghost g2 = *self;
+        let ghost ev2 = event;
         proof {
             assert forall|s: Slot| keeps_decision(#[trigger] old(self).st(s), g2.st(s)) by { let _ = g0.st(s); }
+            assert forall|s: Slot| decided(g2.st(s)) && !decided(#[trigger] old(self).st(s)) implies reported_any(ev2, s) by {
+                let _ = g0.st(s);
+                assert(reported_in(ev2, s, g2.st(s)));
+            }
+        }
+after `self.prune();`
+        proof {
+            assert forall|s: Slot| s.0 > old(self).first_unpruned_slot.0 && !decided(#[trigger] old(self).st(s))
+                && (s.0 < self.first_unpruned_slot.0 || decided(self.st(s))) implies reported_any(event, s) by {
+                if s.0 < self.first_unpruned_slot.0 { assert(decided(g2.st(s))); } else { assert(self.st(s) == g2.st(s)); }
+            }
         }
 @*/
 
